@@ -17,6 +17,7 @@ import (
 	"io"
 	"os"
 	"path/filepath"
+	"runtime"
 	"strings"
 	"sync"
 	"testing"
@@ -123,6 +124,7 @@ type world struct {
 	leaderLostTail bool
 	resyncPending  bool // the leader lost its tail and has not completed a resynchronising step yet
 	parked         bool
+	parkedOffline  bool // the parked step waits for the follower (else: for data)
 	lastAck        int64
 }
 
@@ -400,8 +402,8 @@ func (w *world) opStep() {
 		w.classes["step-skipped-previous-parked"]++
 		return
 	}
-	if w.backlog() == 0 {
-		w.t.Skip("no backlog: the production loop would wait for data")
+	if !w.needsStep() {
+		w.t.Skip("no backlog and the channel is ready: the production loop would wait for data")
 	}
 	if !w.folOnline && rapid.IntRange(0, 3).Draw(w.t, "stepWhileOffline") != 0 {
 		w.t.Skip("follower offline")
@@ -418,6 +420,7 @@ func (w *world) opStep() {
 		w.logf("  (step parked: waits for data or for the follower)")
 		w.classes["step-parked"]++
 		w.parked = true
+		w.parkedOffline = !w.folOnline
 	} else if w.resyncPending && w.folOnline {
 		if r := replica.VerifReplicator(w.leader.part, followerID); r != nil && r.State() != nil && replica.VerifReplicatorReady(r) {
 			w.resyncPending = false
@@ -446,7 +449,7 @@ func (w *world) opAppend() {
 		w.logf("leaderAppend id=%d size=%d -> position %d", w.nextID, size, pos)
 	}
 	// a parked step may have been waiting for data
-	if w.step != nil && w.folOnline {
+	if w.step != nil && !w.parkedOffline {
 		w.settleWake(200 * time.Millisecond)
 	}
 }
@@ -457,6 +460,16 @@ func (w *world) backlog() int64 {
 		return 0
 	}
 	return r.Pending()
+}
+
+// needsStep: the production loop has something to do without new data: unconsumed messages, or a
+// channel that is not ready (it resynchronises and may re-send consumed but unacknowledged ones).
+func (w *world) needsStep() bool {
+	r := replica.VerifReplicator(w.leader.part, followerID)
+	if r == nil {
+		return false
+	}
+	return r.Pending() > 0 || !replica.VerifReplicatorReady(r)
 }
 
 func (w *world) noteFault() {
@@ -535,8 +548,12 @@ func (w *world) opFollowerOnline() {
 			w.fatalf("online notification is not consumed by the suspended replicator")
 		}
 	}
-	if w.step != nil {
-		w.settleWake(300 * time.Millisecond)
+	if w.step != nil && w.parkedOffline {
+		// the suspended step continues; it may park again waiting for data
+		w.settleWake(100 * time.Millisecond)
+		if w.step != nil {
+			w.parked, w.parkedOffline = true, false
+		}
 	}
 }
 
@@ -587,6 +604,36 @@ func (w *world) opLeaderLosesTail() {
 	w.classes["fault-leader-lost-tail"]++
 }
 
+// opLoseLastK: image, k appends that are replicated, then the leader falls back to the image:
+// the leader is exactly k messages behind its follower.
+func (w *world) opLoseLastK() {
+	if !w.folOnline || !w.settle(0) || (w.resyncPending && ev.Known(sigLostTail)) {
+		w.t.Skip("follower offline / step parked / resync pending")
+	}
+	k := rapid.IntRange(1, 2).Draw(w.t, "lostMessages")
+	if len(w.images) >= 2 {
+		w.images = w.images[1:]
+	}
+	w.opSnapshotLeader()
+	for i := 0; i < k; i++ {
+		m := w.newMessage(16)
+		if err := w.leader.part.WriteLog(m); err != nil {
+			w.fatalf("leader append: %v", err)
+		}
+		w.posOf[w.nextID] = w.leader.fq.Queue().AppendedSeq()
+		w.logf("leaderAppend id=%d size=16 -> position %d", w.nextID, w.posOf[w.nextID])
+	}
+	for i := 0; i < 2*k+2 && w.needsStep(); i++ {
+		w.opStep()
+		if w.step != nil {
+			break
+		}
+	}
+	w.check("before tail loss")
+	w.opLeaderLosesTail()
+	w.classes["lose-last-k"]++
+}
+
 // ---- oracle -------------------------------------------------------------------------------------------------
 
 func (w *world) check(where string) {
@@ -635,7 +682,7 @@ func (w *world) check(where string) {
 	// it was true when it was recorded)
 	if r := replica.VerifReplicator(w.leader.part, followerID); r != nil {
 		ack := r.AckIndex()
-		if ack != w.lastAck && ack > fApp {
+		if ack > w.lastAck && ack > fApp {
 			w.fatalf("%s: leader moved the position acknowledged by the follower from %d to %d, follower has appended up to %d", where, w.lastAck, ack, fApp)
 		}
 		w.lastAck = ack
@@ -656,7 +703,9 @@ func (w *world) converge() {
 		w.resyncPending = false
 		w.opAppend()
 		if !w.settleWake(2 * time.Second) {
-			w.fatalf("replication step does not finish although data is available and the follower is online")
+			buf := make([]byte, 1<<20)
+			n := runtime.Stack(buf, true)
+			w.fatalf("replication step does not finish although data is available and the follower is online\n%s", buf[:n])
 		}
 	}
 	budget := int(w.leader.fq.Queue().AppendedSeq()+1) + 8
@@ -667,7 +716,7 @@ func (w *world) converge() {
 		if fApp >= lApp && r.Pending() == 0 {
 			break
 		}
-		if w.backlog() == 0 {
+		if !w.needsStep() {
 			break
 		}
 		w.opStep()
@@ -679,8 +728,11 @@ func (w *world) converge() {
 	}
 	lApp := w.leader.fq.Queue().AppendedSeq()
 	fApp := w.fol.fq.Queue().AppendedSeq()
-	if fApp < lApp {
-		w.fatalf("no resynchronisation: after the faults stopped and %d steps the follower has appended up to %d, the leader up to %d", budget, fApp, lApp)
+	ack := replica.VerifReplicator(w.leader.part, followerID).AckIndex()
+	// positions at or below the position the follower acknowledged are not held for it any more
+	// (a follower that lost its log afterwards is reset to ack+1 with the next message)
+	if fApp < lApp && ack < lApp {
+		w.fatalf("no resynchronisation: after the faults stopped and %d steps the follower has appended up to %d, the leader up to %d (acknowledged by the follower: %d)", budget, fApp, lApp, ack)
 	}
 	w.check("after convergence")
 }
@@ -732,6 +784,7 @@ func runHistory(t *rapid.T) {
 		"leaderGC":         func(t *rapid.T) { w.t = t; w.opLeaderGC() },
 		"snapshotLeader":   func(t *rapid.T) { w.t = t; w.opSnapshotLeader() },
 		"leaderLosesTail":  func(t *rapid.T) { w.t = t; w.opLeaderLosesTail() },
+		"loseLastK":        func(t *rapid.T) { w.t = t; w.opLoseLastK() },
 		"":                 func(t *rapid.T) { w.t = t; w.check("after step") },
 	})
 	w.t = t
@@ -745,4 +798,76 @@ func runHistory(t *rapid.T) {
 
 func TestReplicationHistory(t *testing.T) {
 	rapid.Check(t, runHistory)
+}
+
+// TestKnown_LeaderLostTailDiverges is the plain reproduction of the known finding
+// C08/leader-lost-tail-appends-before-resync: a leader that lost the tail of its log and accepts
+// writes before the channel has resynchronised stores new messages at positions at which the
+// follower still holds the old ones; the resynchronisation (index comparison only) cannot notice.
+func TestKnown_LeaderLostTailDiverges(t *testing.T) {
+	ran := false
+	rapid.Check(t, func(t *rapid.T) {
+		if ran {
+			return // one deterministic scenario; rapid only provides the *rapid.T the world needs
+		}
+		ran = true
+		root, err := os.MkdirTemp("", "c08k-")
+		if err != nil {
+			t.Fatalf("harness: %v", err)
+		}
+		w := &world{t: t, root: root, posOf: map[uint64]int64{}, idBytes: map[uint64][]byte{}, classes: map[string]int{}, folOnline: true, lastAck: -1}
+		w.leader.dir = filepath.Join(root, "leader")
+		w.fol.dir = filepath.Join(root, "follower")
+		defer func() {
+			w.breakStream()
+			w.leader.part.Stop()
+			_ = w.leader.part.Close()
+			_ = w.fol.part.Close()
+			_ = os.RemoveAll(root)
+		}()
+		w.openFollower()
+		w.openLeader()
+		put := func() {
+			m := w.newMessage(16)
+			if err := w.leader.part.WriteLog(m); err != nil {
+				t.Fatalf("append: %v", err)
+			}
+			w.posOf[w.nextID] = w.leader.fq.Queue().AppendedSeq()
+		}
+		// a step is only taken when there is a backlog (otherwise the production loop waits for data)
+		stepAll := func() {
+			for i := 0; i < 6 && w.backlog() > 0; i++ {
+				replica.VerifReplicaStep(w.leader.part, followerID)
+			}
+		}
+		put()
+		img := filepath.Join(root, "img")
+		if err := crash.CopyTree(w.leader.dir, img); err != nil {
+			t.Fatalf("harness: %v", err)
+		}
+		put()
+		stepAll()
+		// leader restarts from the image (position 1 lost) and takes two writes before replication runs
+		w.breakStream()
+		w.leader.part.Stop()
+		_ = w.leader.part.Close()
+		_ = os.RemoveAll(w.leader.dir)
+		if err := crash.CopyTree(img, w.leader.dir); err != nil {
+			t.Fatalf("harness: %v", err)
+		}
+		w.openLeader()
+		put()
+		put()
+		stepAll()
+		l, _ := w.leader.fq.Queue().Get(1)
+		f, errF := w.fol.fq.Queue().Get(1)
+		diverged := errF == nil && l != nil && !bytes.Equal(l, f)
+		if diverged {
+			if ev.Known(sigLostTail) {
+				ev.KnownFinding("C08", sigLostTail+": leader log reverted to position 0, two writes before the next replication step: position 1 holds different bytes on leader and follower and replication continues at position 2")
+				return
+			}
+			t.Fatalf("%s: position 1 holds different bytes on leader and follower after resynchronisation", sigLostTail)
+		}
+	})
 }
